@@ -26,7 +26,7 @@ from .recorder import LevelObjective, RecGSC, RecLSC, Recorder, RecSprout
 
 BOXES = {
     "sym": lambda d: [(-5.0, 5.0)] * d,
-    "asym": lambda d: [(-1.0, 7.0), (2.0, 3.0), (-30.0, -10.0), (0.0, 0.5), (100.0, 101.0)][:d],
+    "asym": lambda d: [(-1.0, 7.0), (2.0, 3.0), (-30.0, -10.0), (0.0, 0.5), (100.0, 101.0), (-0.25, 0.75)][:d],
     "decimal": lambda d: [(-0.1, 0.2)] * d,
     "tiny": lambda d: [(0.0, 1e-9)] * d,
     "huge": lambda d: [(-1e9, 1e9)] * d,
